@@ -28,6 +28,21 @@ def for_loops(func, ex=None):
                 tails = [x for x in body if head in g.succ[x]]
                 if not all(g.dominates(b, x) for x in tails):
                     continue
+                # the None arm of this next() must leave *this* loop (otherwise it drives an inner loop)
+                nb = t.get("t")
+                hops = 0
+                while nb is not None and func.blocks[nb]["term"]["k"] != "switch" and hops < 3:
+                    ss = succs(func.blocks[nb]["term"])
+                    nb = ss[0] if len(ss) == 1 else None
+                    hops += 1
+                if nb is None:
+                    continue
+                sw = func.blocks[nb]["term"]
+                none_arm = [tb for v, tb in sw["targets"] if v == 0]
+                if not none_arm and [v for v, _ in sw["targets"]] == [1]:
+                    none_arm = [sw["otherwise"]]
+                if not none_arm or none_arm[0] in body:
+                    continue
                 it = ex.operand(t["args"][0])
                 rng = None
                 src = it
